@@ -44,12 +44,15 @@ func AccessPath(v ssa.Value, depth int) string {
 	}
 	switch x := v.(type) {
 	case *ssa.Parameter:
-		return x.Name()
+		if a, ok := paramSubst[x]; ok {
+			return AccessPath(a, depth+1)
+		}
+		return BaselineParamName(x)
 	case *ssa.FreeVar:
-		return x.Name()
+		return BaselineVarName(x.Name(), x.Parent())
 	case *ssa.Alloc:
 		if x.Comment != "" {
-			return x.Comment
+			return BaselineVarName(x.Comment, x.Parent())
 		}
 		return "local"
 	case *ssa.Global:
@@ -154,6 +157,45 @@ func nonNilAt(v ssa.Value, b *ssa.BasicBlock) bool {
 			return true
 		}
 	}
+	// inside a closure: the guard may dominate the place where the closure is created (the closure runs only then,
+	// e.g. a callback handed to slices.ContainsFunc); the guarded expression is named by the same access path there
+	if fn := b.Parent(); fn != nil && fn.Parent() != nil {
+		par := fn.Parent()
+		for _, pb := range par.Blocks {
+			for _, in := range pb.Instrs {
+				mc, ok := in.(*ssa.MakeClosure)
+				if !ok || mc.Fn != ssa.Value(fn) {
+					continue
+				}
+				// only closures that are consumed where they are created (passed directly to a call), not stored for later
+				direct := false
+				for _, ref := range *mc.Referrers() {
+					if _, isCall := ref.(ssa.CallInstruction); isCall {
+						direct = true
+					} else if _, isDbg := ref.(*ssa.DebugRef); !isDbg {
+						direct = false
+						break
+					}
+				}
+				if !direct {
+					continue
+				}
+				for _, e := range edgeFacts(pb) {
+					i := ifOf(e.From)
+					if i == nil {
+						continue
+					}
+					tv, nilWhenTrue, ok := nilTest(i.Cond)
+					if !ok || nilWhenTrue == (e.Succ == 0) {
+						continue
+					}
+					if AccessPath(tv, 0) == path {
+						return true
+					}
+				}
+			}
+		}
+	}
 	return false
 }
 
@@ -208,7 +250,10 @@ func (p *Prog) panicSitesIn(inScope map[string]bool, anyClass bool) []PanicSite 
 		for _, b := range fn.Blocks {
 			if i := ifOf(b); i != nil {
 				if tv, _, ok := nilTest(i.Cond); ok {
-					if fv := fieldVarOf(tv); fv != nil {
+					// fields of standard-library structs are left out: their nil-ness is governed by documented API
+					// guarantees (e.g. http.Response.Body is non-nil when it comes from a Client), and a defensive
+					// test in one package says nothing about the values another package receives
+					if fv := fieldVarOf(tv); fv != nil && fv.Pkg() != nil && !isStdPkgPath(fv.Pkg().Path()) {
 						nilCompared[fv] = true
 					}
 				}
@@ -920,4 +965,10 @@ func comparedBefore(src ssa.Value, blk *ssa.BasicBlock) bool {
 		}
 	}
 	return lower && upper
+}
+
+// isStdPkgPath: a standard-library import path (first element without a dot; the checker's own fixture module is not std).
+func isStdPkgPath(path string) bool {
+	first := strings.SplitN(path, "/", 2)[0]
+	return !strings.Contains(first, ".") && first != "fixtures"
 }
